@@ -144,11 +144,19 @@ def run(tier, seed):
     brow = res["rows"]["ROW"]
     if len(brow) * 2 != res["distinct"]:
         raise Machinery("MC_C04_beat: %d rows for %d states" % (len(brow), res["distinct"]))
-    ev.tlc("MC_C04_beat", res, "Beat.tla (P-score, Goto, Cemgil terms); invariant SelfPerfect")
+    ev.tlc("MC_C04_beat", res, "Beat.tla (P-score, Goto, Cemgil terms, continuity, information gain); invariants SelfPerfect, ContNested")
+    res = tlc.run("MC_C04_beat", cfg="MC_C04_beatj", timeout=3400, heap="8g")
+    jrow = res["rows"]["ROW"]
+    if len(jrow) * 2 != res["distinct"]:
+        raise Machinery("MC_C04_beatj: %d rows for %d states" % (len(jrow), res["distinct"]))
+    ev.tlc("MC_C04_beatj", res, "jittered copies of a regular reference")
+    for j_ in jrow:
+        j_["_all"] = True
+    brow = brow + jrow
     BU = 0.25
     import math
     for k, r in enumerate(brow):
-        if not thorough and (k + seed) % 4:
+        if not thorough and (k + seed) % 4 and not r.get("_all"):
             continue
         ref, est = np.array(r["ref"], dtype=float) * BU + 5.0, np.array(r["est"], dtype=float) * BU + 5.0
         o = r["out"]
